@@ -1,9 +1,17 @@
 import Hfsm.Drive.Common
 import Hfsm.Drive.C20
+import Hfsm.Drive.Mach
+import Hfsm.Drive.C18
+import Hfsm.Drive.C19
+import Hfsm.Drive.C07
 open Hfsm.Drive
 
 def replayers : List (String × Replayer) :=
-  [ ("c20", Hfsm.Drive.C20.replayer) ]
+  [ ("c20", Hfsm.Drive.C20.replayer),
+    ("mach", Hfsm.Drive.MachReplay.replayer),
+    ("c18", Hfsm.Drive.C18.replayer),
+    ("c19", Hfsm.Drive.C19.replayer),
+    ("c07", Hfsm.Drive.C07.replayer) ]
 
 partial def loop (h : IO.FS.Stream) (r : Replayer) (st : r.State) (n : Nat) : IO UInt32 := do
   let line ← h.getLine
